@@ -777,3 +777,66 @@ Proof.
         -- apply nth_error_None in Em. destruct (nth_error ys j) eqn:Ey0; [|reflexivity].
            assert (j < length ys) by (apply nth_error_Some; congruence). lia.
 Qed.
+
+(* ---------------- the converse direction: building a source position of the stacked array from one of a member *)
+Lemma ix_src_around_inv pre it post d n s RA RM RB j Im :
+  d <= length s -> cons_n pre = d -> consumes it = 1 ->
+  length RA = prod_n pre -> length RM = produces it ->
+  item_src it [n] RM = Some [j] ->
+  ix_src (pre ++ post) s (RA ++ RB) = Some Im ->
+  ix_src (pre ++ it :: post) (insert_at d n s) (RA ++ RM ++ RB) = Some (insert_at d j Im).
+Proof.
+  intros Hd Hc Hi LA LM Ei Es.
+  rewrite ix_src_app, Hc in Es. replace (length s <? d) with false in Es by (symmetry; apply Nat.ltb_ge; lia). cbn [orb] in Es.
+  rewrite app_length, LA in Es. replace (prod_n pre + length RB <? prod_n pre) with false in Es by (symmetry; apply Nat.ltb_ge; lia).
+  replace (firstn (prod_n pre) (RA ++ RB)) with RA in Es by (rewrite <- LA; now rewrite firstn_app_exact).
+  replace (skipn (prod_n pre) (RA ++ RB)) with RB in Es by (rewrite <- LA; now rewrite skipn_app_exact).
+  destruct (ix_src pre (firstn d s) RA) as [s1|] eqn:E1; cbn [obind] in Es; [|discriminate].
+  destruct (ix_src post (skipn d s) RB) as [s2|] eqn:E2; cbn [obind] in Es; [|discriminate]. injection Es as <-.
+  destruct (ix_src_length _ _ _ _ E1) as (L1 & _ & _). rewrite firstn_length, Nat.min_l in L1 by lia.
+  rewrite ix_src_app, Hc, length_insert_at.
+  replace (S (length s) <? d) with false by (symmetry; apply Nat.ltb_ge; lia). cbn [orb].
+  rewrite !app_length, LA. replace (prod_n pre + (length RM + length RB) <? prod_n pre) with false by (symmetry; apply Nat.ltb_ge; lia).
+  rewrite firstn_insert_at_le, skipn_insert_at_le, Nat.sub_diag, insert_at_0 by lia.
+  replace (firstn (prod_n pre) (RA ++ RM ++ RB)) with RA by (rewrite <- LA; now rewrite firstn_app_exact).
+  replace (skipn (prod_n pre) (RA ++ RM ++ RB)) with (RM ++ RB) by (rewrite <- LA; now rewrite skipn_app_exact).
+  rewrite E1. cbn [obind ix_src]. rewrite Hi. cbn [length firstn skipn].
+  replace (S (length (skipn d s)) <? 1) with false by (symmetry; apply Nat.ltb_ge; lia). cbn [orb].
+  rewrite app_length. replace (length RM + length RB <? produces it) with false by (symmetry; apply Nat.ltb_ge; lia).
+  rewrite <- LM, firstn_app_exact, skipn_app_exact, Ei. cbn [obind]. rewrite E2. cbn [obind].
+  f_equal. rewrite <- L1. now rewrite insert_at_len_app.
+Qed.
+
+Lemma insert_at_app_ge {A} (a b : list A) k (x : A) : length a <= k -> insert_at k x (a ++ b) = a ++ insert_at (k - length a) x b.
+Proof. intros H. rewrite <- (insert_at_app_r a b (k - length a) x). f_equal. lia. Qed.
+
+Lemma ix_src_before_inv pre d n s Rm Im j :
+  d <= length s -> cons_n pre <= d -> j < n ->
+  ix_src pre s Rm = Some Im ->
+  let c := cons_n pre in let q := prod_n pre in
+  ix_src pre (insert_at d n s) (insert_at (q + (d - c)) j Rm) = Some (insert_at d j Im).
+Proof.
+  intros Hd Hc Hj Es c q.
+  rewrite <- (app_nil_r pre) in Es. rewrite ix_src_app in Es. fold c q in Es.
+  destruct ((length s <? c) || (length Rm <? q)) eqn:E0; [discriminate|]. apply orb_false_iff in E0 as [_ Eq]. apply Nat.ltb_ge in Eq.
+  destruct (list_split_at Rm q Eq) as (RA & T & -> & LA).
+  replace (firstn q (RA ++ T)) with RA in Es by (rewrite <- LA; now rewrite firstn_app_exact).
+  replace (skipn q (RA ++ T)) with T in Es by (rewrite <- LA; now rewrite skipn_app_exact).
+  destruct (ix_src pre (firstn c s) RA) as [s1|] eqn:E1; cbn [obind ix_src] in Es; [|discriminate].
+  destruct (in_range (skipn c s) T) eqn:Er; cbn [obind] in Es; [|discriminate]. injection Es as <-.
+  destruct (ix_src_length _ _ _ _ E1) as (L1 & _ & _). rewrite firstn_length, Nat.min_l in L1 by lia.
+  pose proof (in_range_length _ _ Er) as LT. rewrite skipn_length in LT.
+  rewrite insert_at_app_ge by lia. rewrite LA. replace (q + (d - c) - q) with (d - c) by lia.
+  rewrite <- (app_nil_r pre) at 1. rewrite ix_src_app, length_insert_at. fold c q.
+  rewrite app_length, LA.
+  replace ((S (length s) <? c) || (q + length (insert_at (d - c) j T) <? q)) with false
+    by (symmetry; apply orb_false_iff; split; apply Nat.ltb_ge; lia).
+  rewrite firstn_insert_at_le, skipn_insert_at_le by lia.
+  replace (firstn q (RA ++ insert_at (d - c) j T)) with RA by (rewrite <- LA; now rewrite firstn_app_exact).
+  replace (skipn q (RA ++ insert_at (d - c) j T)) with (insert_at (d - c) j T) by (rewrite <- LA; now rewrite skipn_app_exact).
+  rewrite E1. cbn [obind ix_src].
+  rewrite in_range_insert by (rewrite skipn_length; lia).
+  rewrite nth_error_insert_at, remove_insert_at by lia.
+  replace (j <? n) with true by (symmetry; now apply Nat.ltb_lt). cbn [andb]. rewrite Er. cbn [obind].
+  f_equal. rewrite insert_at_app_ge by lia. now rewrite L1.
+Qed.
